@@ -219,7 +219,7 @@ def decide(prop, mod, results, tier, seed, wall):
             # witnesses of listed known findings that still violate the obligation (its residual is proved separately)
             for h in o.get("known_hits", []):
                 kf_ = open_ids.get(h["id"])
-                if kf_ is not None and kf_.get("obligation") == o["name"]:
+                if kf_ is not None and (kf_.get("obligation") == o["name"] or o["name"] in kf_.get("also_obligations", ())):
                     if not any(x["id"] == h["id"] for x in known_hits):
                         rep_ = {"confirmed": None, "detail": "no replay function"}
                         fn_ = _lookup(getattr(mod, "REPLAY", {}), o["name"])
